@@ -33,7 +33,8 @@ FUNCTIONS = [
     "nessai.proposal.importance.ImportanceFlowProposal.rescale",
     "nessai.proposal.importance.ImportanceFlowProposal.inverse_rescale",
 ]
-BOUNDS = {"quick": dict(dimensions=1, batch=2), "thorough": dict(dimensions=1, batch=3)}
+BOUNDS = {"quick": dict(dimensions=1, batch=2, ins_proposal="1..2 flows without reparameterisation, 1 flow with logit, one drawn sample"),
+          "thorough": dict(dimensions=1, batch=3, ins_proposal="1..3 flows without reparameterisation, 1..2 flows with logit, one drawn sample")}
 SCOPE = ("Only the glue is decided: that the density reported at generation is the density evaluated at the generated point, that the array-level interface returns the model-level values, "
          "that the alternative latent distribution is used when supplied, and that the proposal adds / subtracts the rescaling Jacobian with the right sign.")
 ASSUMPTIONS = [
